@@ -102,7 +102,13 @@ def run(c):
                         n1b = rng.choice([x for x in range(3, min(r, 14) + 1) if x != n1] or [n1])
                         twin = (k, r, n1b, s) if tw == 0 else (k, r, n1, rng.rng(1, P - 1)) if tw == 1 else (max(1, k + rng.choice([-1, 1])), r, n1, s)
                         pre = ",".join(pre.split(",")[:-1] + ["%d:%d:%d:%d" % twin])
-                reqs.append("Q %d %d %d %d %d %s" % (k, r, n1, s, role, pre)); meta.append((k, r, n1, s, role, hist))
+                # one request in eight is created with verbosity 2 (the library traces; seed C05i turned a dormant PRNG self-test on there);
+                # one in four has other sessions configured AFTER the target and alive while its matrix and claim are read (seed C15i)
+                vrole = role + (10 if rng.chance(1, 8) else 0)
+                post = ""
+                if rng.chance(1, 4):
+                    post = " " + ",".join("%d:%d:%d:%d" % (rng.rng(1, 60), rng.rng(3, 40), rng.choice([3, 4, 4, 6]), rng.rng(1, P - 1)) for _ in range(rng.rng(1, 3)))
+                reqs.append("Q %d %d %d %d %d %s%s" % (k, r, n1, s, vrole, pre, post)); meta.append((k, r, n1, s, role, hist))
     exe = vlib.build_c(c.snap, "drv_pchk", "drv_pchk.c")
     ans, crashes = vlib.run_driver(exe, reqs, prefix="R")
     for kx, se in crashes[:5]:
